@@ -175,28 +175,4 @@ theorem runTx_abort (F : Facts) (s : Store) (tx : List Op) (h : (runTx F s tx).2
     split at h <;> simp_all
   · rfl
 
-theorem doUpdate_abort_ne_unreferenced (F : Facts) (t : TxState) (a n s : Nat) (e : Abort)
-    (h : doUpdate F t a n s = .abort e) : e ≠ .unreferenced := by
-  unfold doUpdate at h
-  repeat' split at h
-  all_goals first | (injection h with h; subst h; simp) | simp at h
-
-theorem step_abort_ne_unreferenced (F : Facts) (t : TxState) (op : Op) (e : Abort)
-    (h : step F t op = .abort e) : e ≠ .unreferenced := by
-  cases op <;> simp only [step] at h
-  · repeat' split at h
-    all_goals first | (injection h with h; subst h; simp) | simp at h
-  · split at h
-    · simp at h
-    · rename_i e' hu
-      injection h with h; subst h
-      exact doUpdate_abort_ne_unreferenced F t _ _ _ _ hu
-  · split at h <;> simp at h
-  · repeat' split at h
-    all_goals first | (injection h with h; subst h; simp) | simp at h
-  · simp at h
-  · simp at h
-  · simp at h
-  · injection h with h; subst h; simp
-
 end Verif.Proofs.Contracts
